@@ -55,17 +55,31 @@ def main():
     ap.add_argument("--tier", default="quick")
     ap.add_argument("--no-suite", action="store_true")
     ap.add_argument("--out", default=os.path.join(HERE, "results.json"))
+    ap.add_argument("--resume", action="store_true", help="keep ok results from --out and run only the rest")
+    ap.add_argument("--redo", nargs="*", default=[], help="with --resume: properties to run again anyway")
     ap.add_argument("names", nargs="*")
     a = ap.parse_args()
     sel = [m for m in MUTANTS if not a.names or m["name"] in a.names or m["prop"] in a.names]
     results = []
+    done = {}
+    if a.resume and os.path.exists(a.out):
+        done = {r["name"]: r for r in json.load(open(a.out))}
     for m in sel:
+        if m["name"] in done and done[m["name"]]["verdict"].startswith("ok") and m["prop"] not in a.redo:
+            results.append(done[m["name"]])
+            continue
         root = tempfile.mkdtemp(prefix="esv-mut-")
         t0 = time.time()
         try:
             shutil.copytree(os.path.join(os.environ.get("VERIF_REPO", "/repo"), "esutil"), os.path.join(root, "esutil"),
                             ignore=shutil.ignore_patterns("*.so", "__pycache__"))
-            apply(root, m)
+            try:
+                apply(root, m)
+            except RuntimeError as e:
+                print("STALE   %s:%s %s" % (m["prop"], m["name"], e), flush=True)
+                results.append({"name": m["name"], "prop": m["prop"], "control": bool(m.get("control")), "rc": -1, "verdict": "STALE",
+                                "suite_passes": None, "first": [str(e)], "tier": a.tier, "why": m.get("why", "")})
+                continue
             suite_ok, suite_tail = (None, "skipped") if a.no_suite else suite(root)
             env = dict(os.environ, VERIF_REPO=root)
             r = subprocess.run([os.path.join(VERIF, "check"), m["prop"], "--tier", a.tier, "--no-evidence"],
@@ -84,7 +98,9 @@ def main():
                             "first": firstv, "tier": a.tier, "why": m.get("why", "")})
         finally:
             shutil.rmtree(root, ignore_errors=True)
-    if not a.names:
+            if not a.names or a.resume:
+                json.dump(results + [r for n, r in done.items() if n not in {x["name"] for x in results}], open(a.out, "w"), indent=1)
+    if not a.names or a.resume:
         json.dump(results, open(a.out, "w"), indent=1)
     bad = [r for r in results if not r["verdict"].startswith("ok")]
     return 1 if bad else 0
